@@ -206,6 +206,27 @@ def lifecycle_closelost(r, idx):
     return {"cfg": cfg, "steps": steps, "tag": {"family": "lifecycle-closelost", "idx": idx}}
 
 
+def lifecycle_earlyclose(r, idx):
+    """An application closes while the handshake is still under way: the server's flight is larger
+    than one datagram and only part of it gets through, so either side may be left with Handshake keys
+    as its best - whatever code and reason the application gave must not leave below 1-RTT protection,
+    and the peer reports the generic application error."""
+    idle = r.choice([2000, 3000])
+    cfg = base_cfg(r, server={"idle_ms": idle}, client={"idle_ms": idle})
+    cfg["sf_size"] = r.choice([1500, 3000, 6000, 9000])
+    cfg["ch_size"] = r.choice([0, 0, 1500])
+    cfg["latency_us"] = 10000
+    menu = ["ok", "ok", "x", "x", "delay:40000", "delay:120000"]
+    cfg["fates_s2c"] = ["ok"] * r.choice([0, 1, 2]) + [r.choice(menu) for _ in range(6)]
+    cfg["fates_c2s"] = ["ok"] * r.choice([1, 2]) + [r.choice(menu) for _ in range(4)]
+    closer = r.choice([0, 1, 1])
+    steps = [{"do": "connect", "n": 1},
+             {"do": "run", "us": r.choice([10001, 15000, 20001, 25000, 30001, 35000, 45000, 70000])},
+             {"do": "op", "n": closer, "c": 0, "op": {"op": "close", "code": r.choice([42, 77]), "reason": "secret"}},
+             {"do": "run", "us": 2 * idle * 1000 + 8000000}]
+    return {"cfg": cfg, "steps": steps, "tag": {"family": "lifecycle-earlyclose", "idx": idx}}
+
+
 # ------------------------------------------------------------------------------------------------
 # C01
 
